@@ -168,7 +168,8 @@ func genGraph(rng *rand.Rand, p genParams, names map[int][]byte) model.Graph {
 				np = 3 + rng.Intn(3) // octopus
 			}
 			used := map[int]bool{}
-			for j := 0; j < np && j < i-1; j++ {
+			dups := rng.Intn(4) == 0 // the same parent may be listed more than once (each header counts)
+			for j := 0; j < np && (j < i-1 || dups); j++ {
 				var pp int
 				if rng.Intn(4) == 0 {
 					pp = 1 + rng.Intn(i-1)
@@ -179,7 +180,7 @@ func genGraph(rng *rand.Rand, p genParams, names map[int][]byte) model.Graph {
 					}
 					pp = lo + rng.Intn(i-lo)
 				}
-				if !used[pp] {
+				if !used[pp] || dups {
 					used[pp] = true
 					c.Parents = append(c.Parents, pp)
 				}
